@@ -166,8 +166,10 @@ def main (args : List String) : IO Unit := do
   | "replay" :: rest => replayMain (parseOpts rest {}).full none
   | ["step"] => stepMain
   | ["c12"] => c12Main
-  | ["rc11", "strong"] => rc11Main true 200000 2000000
-  | ["rc11", "doc"] => rc11Main false 200000 2000000
+  | ["rc11", "strong"] => rc11Main true 30000 6000
+  | ["rc11", "doc"] => rc11Main false 30000 6000
+  | ["rc11", "strong", st, gr] => rc11Main true (st.toNat?.getD 30000) (gr.toNat?.getD 6000)
+  | ["rc11", "doc", st, gr] => rc11Main false (st.toNat?.getD 30000) (gr.toNat?.getD 6000)
   | ["sc"] => scMain 200000
   | ["sc", n] => scMain (n.toNat?.getD 200000)
   | _ => IO.eprintln "usage: lvdriver explore [--full] [--starts] [--max n] | replay [--full] | step"
